@@ -215,14 +215,21 @@ class Capability:
     @classmethod
     def klass(cls, what: int) -> Type[Capability]:
         if what in cls.registered_capability:
-            kls: Type[Capability] = cls.registered_capability[what]
-            kls.ID = what
-            return kls
+            return cls.registered_capability[what]
         if cls.unknown_capability:
             return cls.unknown_capability
         raise Notify(2, 4, 'can not handle capability {}'.format(what))
 
     @classmethod
     def unpack(cls, capability: CapabilityCode, capabilities: Any, data: Buffer) -> Capability:
-        instance: Capability = capabilities.get(capability, Capability.klass(capability)())
-        return cls.klass(capability).unpack_capability(instance, data, capability)
+        kls = cls.klass(capability)
+        instance: Capability | None = capabilities.get(capability, None)
+        if instance is None:
+            instance = kls()
+            if capability in cls.registered_capability:
+                # RouteRefresh (2, 128) and MultiSession (68, 131) are registered under two codes
+                # and render the code they were decoded from. That is a fact about this object:
+                # written on the class, as it used to be, it changed every capability of that
+                # class already decoded, on every session of the process.
+                instance.ID = capability  # type: ignore[misc]
+        return kls.unpack_capability(instance, data, capability)
